@@ -10,8 +10,8 @@ CONSTANTS MaxSecs, MaxLevel, Sim
 
 Titles == << "One", "A & B", "Q \"uote\" 'x'", "T<ag> >", "Caf~E", "C#" >>
 HashEnd == {6}        \* titles that end in '#': unambiguous only with closing hashes or as Setext headings
-Bodies == << "plain body\n\n", "a & b < c > \"q\" 'x' &amp; &#10;\n\n", "", "tab\there  two\nline2\n\n", "* item <b>\n* two\n\n", "    code & <pre>\n\n" >>
-Pres   == << "", "pre <amble> & \"text\"\n\n" >>
+Bodies == << "plain body\n\n", "a & b < c > \"q\" 'x' &amp; &#10;\n\n", "", "tab\there  two\nline2\n\n", "* item <b>\n* two\n\n", "    code & <pre>\n\n", "form~Ffeed and~Vvertical tab, unit~Useparator\n\n" >>      \* (~F ~V ~U: form feed, vertical tab, 0x1F -- written by the check)
+Pres   == << "", "pre <amble> & \"text\"\n\n", "\n\nNote: this opening paragraph follows two blank lines and looks like a key\n\n" >>
 Metas  == << <<>>, << [k |-> "Title", n |-> "title", v |-> "My Title"] >>, << [k |-> "Title", n |-> "title", v |-> "T <1>"], [k |-> "Author", n |-> "author", v |-> "A \"B\" C"] >>,
            << [k |-> "Title", n |-> "title", v |-> "B"], [k |-> "Base Header Level", n |-> "baseheaderlevel", v |-> "2"] >>,
            \* keys that re-configure other writers must not touch this one
